@@ -341,20 +341,33 @@ static int put_vtextf(TickitRenderBuffer *rb, int line, int col, const char *fmt
   return put_text(rb, line, col, rb->tmp, len);
 }
 
-static void put_char(TickitRenderBuffer *rb, int line, int col, long codepoint)
+static int put_char(TickitRenderBuffer *rb, int line, int col, long codepoint)
 {
   int cols = 1;
 
+  /* A CHAR cell is exactly one column wide. Double-width, zero-width and
+   * invalid characters go the way of a one-character text, which knows about
+   * widths */
+  char str[6];
+  size_t len = tickit_utf8_put(str, sizeof str, codepoint);
+  TickitStringPos pos;
+  if(tickit_utf8_ncount(str, len, &pos, NULL) == (size_t)-1)
+    return -1;
+  if(pos.columns != 1)
+    return put_text(rb, line, col, str, len);
+
   if(!xlate_and_clip(rb, &line, &col, &cols, NULL))
-    return;
+    return 1;
 
   if(rb->cells[line][col].maskdepth > -1)
-    return;
+    return 1;
 
   RBCell *cell = make_span(rb, line, col, cols);
   cell->state           = CHAR;
   cell->pen             = tickit_pen_ref(rb->pen);
   cell->v.chr.codepoint = codepoint;
+
+  return 1;
 }
 
 static void skip(TickitRenderBuffer *rb, int line, int col, int cols)
@@ -894,9 +907,9 @@ void tickit_renderbuffer_char(TickitRenderBuffer *rb, long codepoint)
 
   DEBUG_LOGF(rb, "Bd", "Char (%d..%d,%d) +%d", rb->vc_col, rb->vc_col + 1, rb->vc_line, 1);
 
-  put_char(rb, rb->vc_line, rb->vc_col, codepoint);
-  // TODO: might not be 1; would have to look it up
-  rb->vc_col += 1;
+  int cols = put_char(rb, rb->vc_line, rb->vc_col, codepoint);
+  if(cols > 0)
+    rb->vc_col += cols;
 }
 
 static void linecell(TickitRenderBuffer *rb, int line, int col, int bits)
